@@ -52,6 +52,8 @@ TARGETS = {
         "right_power": "        ensures r as int == rp_spec(*self),",
     }, ["C09"]),
     "result": ("src/lib.rs", [r"^pub struct ParseResult<T, E> \{"], r"^impl<T, E> ParseResult<T, E> \{", {
+        "new": "        ensures r.output == output, r.errs@ == errs@,",
+        "output": "        ensures r.is_some() == self.output.is_some(), r.is_some() ==> *r.unwrap() == self.output.unwrap(),",
         "has_output": "        ensures r == self.output.is_some(),",
         "has_errors": "        ensures r == (self.errs@.len() > 0),",
         "into_output": "        ensures r == self.output,",
